@@ -110,7 +110,8 @@ def typed_expected(p):
     wallcons = {}
     for l in p.get("layers", []):
         wallcons[l["name"]] = [l["name"], list(l["mats"]), [int(round(t * 1e4)) for t in l["ths"]]]
-    spaces, walls, windows = [], [], []
+    spaces, walls, windows, wallgeo = [], [], [], []
+    n4x = lambda x: int(round(x * 1e4))
     polys = {pg["name"]: pg["verts"] for pg in p.get("polygons", [])}
     for fl in p.get("floors", []):
         for sp in fl["spaces"]:
@@ -133,9 +134,44 @@ def typed_expected(p):
                 nextto = w.get("nextto") if bounds == "INTERIOR" and w.get("nextto") else "-"
                 walls.append([w["name"], bounds, sp["name"], consname, locv, int(round(tilt * 1e4)), nextto])
                 for v in w.get("windows", []):
-                    windows.append([v["name"], w["name"], v["gap"], int(round(v["x"] * 1e4)), int(round(v["y"] * 1e4)), int(round(v["w"] * 1e4)),
-                                    int(round(v["h"] * 1e4)), int(round(v.get("setback", 0) * 1e4))])
-    return {"materials": mats, "wallcons": [wallcons[k] for k in sorted(wallcons)], "spaces": spaces, "walls": walls, "windows": windows}
+                    n4 = lambda x: int(round(x * 1e4))
+                    oh = v.get("overhang")
+                    ohv = [n4(oh["a"]), n4(oh["b"]), n4(oh["d"]), n4(oh["w"]), n4(oh["angle"])] if oh and oh["d"] * oh["w"] > 0 else []
+                    fins = []
+                    for key in ("lfin", "rfin"):
+                        f = v.get(key)
+                        fins.append([n4(f["a"]), n4(f["b"]), n4(f["d"]), n4(f["h"])] if f and f["d"] * f["h"] > 0 else [])
+                    lv = v.get("louvres")
+                    lvv = [bool(lv["horizontal"]), n4(lv["w"]), n4(lv["dist"]), n4(lv["angle"]), n4(lv["tran"]), n4(lv["refl"])] if lv and lv["w"] > 0 else []
+                    windows.append([v["name"], w["name"], v["gap"], n4(v["x"]), n4(v["y"]), n4(v["w"]), n4(v["h"]), n4(v.get("setback", 0)),
+                                    [n4(c) for c in v["coefs"]] if "coefs" in v else [], ohv, fins[0], fins[1], lvv])
+                # placement of elements defined by their own polygon
+                if not loc:
+                    wallgeo.append([w["name"], n4x(w.get("x", 0)), n4x(w.get("y", 0)), n4x(w.get("z", 0)), n4x(w.get("azimuth", 0)),
+                                    [[n4x(q[0]), n4x(q[1])] for q in polys[w["polygon"]]]])
+    # library and other elements
+    wincons = [[g["name"], g["glass"], g["frame"], n4x(g["pct"] / 100.0), n4x(g["inf"]), n4x(g.get("du", 0)), n4x(g["tj"]) if "tj" in g else -1]
+               for g in sorted(p.get("gaps", []), key=lambda g: g["name"])]
+    glasses = [[g["name"], n4x(g["u"]), n4x(g["sc"] * 0.86)] for g in sorted(p.get("glasses", []), key=lambda g: g["name"])]
+    frames = [[f["name"], n4x(f["u"]), n4x(f.get("abs", 0.7)), n4x(f.get("width", 0.1))] for f in sorted(p.get("frames", []), key=lambda f: f["name"])]
+    shades = []
+    for sh in p.get("shades", []):
+        if "verts" in sh:
+            shades.append([sh["name"], [], [[n4x(c) for c in v] for v in sh["verts"]]])
+        else:
+            shades.append([sh["name"], [n4x(sh["x"]), n4x(sh["y"]), n4x(sh["z"]), n4x(sh["h"]), n4x(sh["w"]), n4x(sh["azimuth"]), n4x(sh["tilt"])], []])
+    tbs = [[t["name"], n4x(t["long"]) if "long" in t else -1, n4x(t.get("ttl", 0.5)), n4x(t.get("frsi", 0.6))] for t in p.get("tbs", [])]
+    floors = [[fl["name"], n4x(fl.get("z", 0)), n4x(fl.get("height", 3)), n4x(fl.get("mult", 1)), fl.get("previous", "")] for fl in p.get("floors", [])]
+    absorp = {l["name"]: 6000 for l in p.get("layers", [])}       # a LAYERS block no CONSTRUCTION refers to by its own name: documented default 0.6
+    for fl in p.get("floors", []):
+        for sp in fl["spaces"]:
+            for w in sp["walls"]:
+                if not w.get("noconsblock"):
+                    absorp[w.get("consname", "%s_%s" % (w["layers"], w["name"]))] = n4x(w.get("abs", 0.6))
+    matx = [[m["name"], n4x(m["thick"]) if "thick" in m else -1, n4x(m["mu"]) if "mu" in m else -1] for m in sorted(p.get("materials", []), key=lambda m: m["name"]) if "r" not in m]
+    return {"materials": mats, "wallcons": [wallcons[k] for k in sorted(wallcons)], "spaces": spaces, "walls": walls, "windows": windows,
+            "wallgeo": wallgeo, "wincons": wincons, "glasses": glasses, "frames": frames, "shades": shades, "tbs": tbs, "floors": floors,
+            "absorptance": [[k, absorp[k]] for k in sorted(absorp)], "matx": matx}
 
 
 def fmtnum(v, comma, rng):
